@@ -10,6 +10,7 @@ package main
 
 import (
 	"fmt"
+	"go/constant"
 	"go/types"
 	"regexp"
 	"strings"
@@ -22,6 +23,7 @@ type ScanColumnCheck struct {
 	Function string `json:"function"`
 	Field    string `json:"field"`  // struct field the column is scanned into
 	Column   string `json:"column"` // expected select item, e.g. "cq.last_processed_time"
+	Position int    `json:"position,omitempty"` // 1-based select item to check when the destination is not a struct field
 }
 
 var queryNames = regexp.MustCompile(`^\(\*sql\.(DB|Tx|Conn)\)\.(QueryRow|QueryRowContext|Query|QueryContext)$`)
@@ -66,6 +68,12 @@ func scanDestField(v ssa.Value) string {
 				return ""
 			}
 			return st.Field(x.Field).Name()
+		case *ssa.Alloc:
+			// a local variable (`var maxTime time.Time; row.Scan(&maxTime)`): named "local:<name>"
+			if x.Comment != "" {
+				return "local:" + x.Comment
+			}
+			return ""
 		default:
 			return ""
 		}
@@ -94,7 +102,18 @@ func (p *Program) scanColumnObligations(sc ScanColumnCheck) ([]*Obligation, []st
 					qi = 2
 				}
 				if len(call.Call.Args) > qi {
-					if qs := constStrings(call.Call.Args[qi], 0); len(qs) > 0 && !strings.Contains(qs[0], dynTail) {
+					qs := constStrings(call.Call.Args[qi], 0)
+					if len(qs) == 0 {
+						// SQL built by fmt.Sprintf from a constant format: the select list is decided by the
+						// format as long as no placeholder occurs before FROM
+						if f, ok := sprintfFormat(call.Call.Args[qi]); ok {
+							up := strings.ToUpper(f)
+							if i := strings.Index(up, " FROM "); i >= 0 && !strings.Contains(f[:i], "%") {
+								qs = []string{f}
+							}
+						}
+					}
+					if len(qs) > 0 && !strings.Contains(qs[0], dynTail) {
 						sql = qs[0]
 						pos := p.fset.Position(call.Pos())
 						sqlPos = fmt.Sprintf("%s:%d", shortFile(pos.Filename), pos.Line)
@@ -114,7 +133,10 @@ func (p *Program) scanColumnObligations(sc ScanColumnCheck) ([]*Obligation, []st
 		return nil, []string{fmt.Sprintf("scan-column %s: cannot split the select list of the query at %s", sc.Name, sqlPos)}
 	}
 	idx := -1
-	for i := 0; i < len(items)+4; i++ {
+	if sc.Position > 0 {
+		idx = sc.Position - 1
+	}
+	for i := 0; idx < 0 && i < len(items)+4; i++ {
 		v, ok := variadicElem(scan.Call.Args[len(scan.Call.Args)-1], i, 0)
 		if !ok {
 			break
@@ -130,7 +152,11 @@ func (p *Program) scanColumnObligations(sc ScanColumnCheck) ([]*Obligation, []st
 	if idx >= len(items) {
 		return nil, []string{fmt.Sprintf("scan-column %s: Scan destination %d has no select item (query has %d)", sc.Name, idx+1, len(items))}
 	}
-	want := strings.ToUpper(strings.Join(strings.Fields(sc.Column), " "))
+	var wparts []string
+	for _, t := range sqlTokens(sc.Column) {
+		wparts = append(wparts, t.s)
+	}
+	want := strings.Join(wparts, " ")
 	cond := "true"
 	if items[idx] != want {
 		cond = "false"
@@ -140,4 +166,18 @@ func (p *Program) scanColumnObligations(sc ScanColumnCheck) ([]*Obligation, []st
 		Desc: fmt.Sprintf("field %s is scanned from select item %d, which must be the stored column %s (found: %s)", sc.Field, idx+1, sc.Column, strings.ToLower(items[idx])),
 		Pos:  sqlPos, NAssume: 0, Reach: "true", Cond: cond, ctx: ctx}
 	return []*Obligation{o}, nil
+}
+
+
+// sprintfFormat returns the constant format of the fmt.Sprintf call that produced v (looking through one local).
+func sprintfFormat(v ssa.Value) (string, bool) {
+	c, ok := v.(*ssa.Call)
+	if !ok || calleeName(&c.Call) != "fmt.Sprintf" || len(c.Call.Args) == 0 {
+		return "", false
+	}
+	k, ok := c.Call.Args[0].(*ssa.Const)
+	if !ok || k.Value == nil || k.Value.Kind() != constant.String {
+		return "", false
+	}
+	return constant.StringVal(k.Value), true
 }
